@@ -138,6 +138,36 @@ theorem printedValues_single (k v : List Char) (q : Quals) (h : q.filter (fun kv
   rw [h]
   simp [sortStrs_single]
 
+/-! ### `_qualifiers_to_str`: which values are printed -/
+
+theorem insertStr_perm (x : List Char) (l : List (List Char)) : (insertStr x l).Perm (x :: l) := by
+  induction l with
+  | nil => exact List.Perm.refl _
+  | cons a l ih =>
+    unfold insertStr
+    split
+    · exact ((List.Perm.cons a ih).trans (List.Perm.swap x a l))
+    · exact List.Perm.refl _
+
+/-- `sorted(...)` only reorders -/
+theorem sortStrs_perm (l : List (List Char)) : (sortStrs l).Perm l := by
+  induction l with
+  | nil => exact List.Perm.refl _
+  | cons a l ih =>
+    have : sortStrs (a :: l) = insertStr a (sortStrs l) := rfl
+    rw [this]
+    exact (insertStr_perm a _).trans (List.Perm.cons a ih)
+
+/-- a key outside the feature class's `VALID_KEYS` is never printed -/
+theorem invalid_key_not_printed (valid : List (List Char)) (k : List Char) (hk : valid.contains k = false)
+    (q : Quals) : (qualPairsOf valid q).filter (fun p => p.1 = k) = [] := by
+  rw [List.filter_eq_nil_iff]
+  intro p hp hpk
+  have := qualPairsOf_keys valid q p hp
+  have hpk' : p.1 = k := by simpa using hpk
+  rw [hpk', hk] at this
+  exact absurd this (by simp)
+
 /-! ### clean dictionaries print clean lines -/
 
 theorem mem_insertStr (x y : List Char) (l : List (List Char)) : y ∈ insertStr x l → y = x ∨ y ∈ l := by
